@@ -43,13 +43,21 @@ const (
 
 // ---- sequential model for porcupine ----
 
+// The specification is C13's, not C06's or C07's: WHEN a scan hands a flow over (deadlines, the
+// retry bound, re-arming policy) is not modelled - those sequential rules have their own checks
+// and an implementation may change them without touching thread-safety. What every linearization
+// must satisfy: a read or an export carries exactly the sums of the ingests ordered before it and
+// after the previous reset (nothing lost, nothing counted twice), only a flow that exists and is
+// ready (both sides seen, if it needs correlation) is exported, never twice at one point of the
+// virtual time, existence as seen by get/num is consistent, and a flow disappears only through a
+// scan (an exported flow may be removed by it; a flow still waiting for correlation may be
+// dropped by it). Where the implementation has a choice the model branches (porcupine's
+// NondeterministicModel).
 type fstate struct {
-	Held     bool
-	Seen     [2]bool
-	Sum      [2]uint64
-	Active   int
-	Inactive int
-	Retries  int
+	Held    bool
+	Seen    [2]bool
+	Sum     [2]uint64
+	LastExp int // virtual minute of the last export, -1: never
 }
 
 type state struct {
@@ -72,24 +80,37 @@ type export struct {
 
 type output struct {
 	Exports string // canonical rendering of the exported (flow, sums), sorted
-	Exists  bool
-	Sum     [2]uint64
-	N       int64
+	Ex      [NF]struct {
+		Has bool
+		N   int
+		Sum [2]uint64
+	}
+	Exists bool
+	Sum    [2]uint64
+	N      int64
 }
 
 var corrFlow [NF]bool
 var maxRetries = 2
 
-func min2(a, b int) int {
-	if a < b {
-		return a
-	}
-	return b
-}
-
 func ready(i int, f fstate) bool { return !corrFlow[i] || (f.Seen[0] && f.Seen[1]) }
 
-func step(st interface{}, in interface{}, out interface{}) (bool, interface{}) {
+func initState() state {
+	var s state
+	for i := range s.F {
+		s.F[i].LastExp = -1
+	}
+	return s
+}
+
+func one(ok bool, s state) []interface{} {
+	if ok {
+		return []interface{}{s}
+	}
+	return nil
+}
+
+func step(st interface{}, in interface{}, out interface{}) []interface{} {
 	s := st.(state)
 	i := in.(input)
 	o := out.(output)
@@ -97,9 +118,7 @@ func step(st interface{}, in interface{}, out interface{}) (bool, interface{}) {
 	case "ingest":
 		f := &s.F[i.Flow]
 		if !f.Held {
-			*f = fstate{Held: true, Active: s.Now + A, Inactive: s.Now + I}
-		} else {
-			f.Inactive = s.Now + I
+			*f = fstate{Held: true, LastExp: f.LastExp}
 		}
 		if i.Node == 2 {
 			f.Seen = [2]bool{true, true}
@@ -109,16 +128,16 @@ func step(st interface{}, in interface{}, out interface{}) (bool, interface{}) {
 			f.Seen[i.Node] = true
 			f.Sum[i.Node] += i.Delta
 		}
-		return true, s
+		return one(true, s)
 	case "shift":
 		s.Now += i.D
-		return true, s
+		return one(true, s)
 	case "get":
 		f := s.F[i.Flow]
 		if o.Exists != f.Held {
-			return false, s
+			return nil
 		}
-		return !f.Held || o.Sum == f.Sum, s
+		return one(!f.Held || o.Sum == f.Sum, s)
 	case "num":
 		n := int64(0)
 		for _, f := range s.F {
@@ -126,46 +145,46 @@ func step(st interface{}, in interface{}, out interface{}) (bool, interface{}) {
 				n++
 			}
 		}
-		return o.N == n, s
+		return one(o.N == n, s)
 	case "expiry":
-		return true, s
+		return one(true, s)
 	case "resetall":
-		// ForAllRecordsDo with a callback that reads the delta sums and resets them: output = what it read
-		var ex []export
+		// ForAllRecordsDo with a callback that reads the delta sums and resets them: it visits exactly the held flows
 		for fi := range s.F {
-			if s.F[fi].Held {
-				ex = append(ex, export{fi, s.F[fi].Sum})
-				s.F[fi].Sum = [2]uint64{}
+			if s.F[fi].Held != o.Ex[fi].Has || o.Ex[fi].N > 1 || (o.Ex[fi].Has && o.Ex[fi].Sum != s.F[fi].Sum) {
+				return nil
 			}
+			s.F[fi].Sum = [2]uint64{}
 		}
-		return renderExports(ex) == o.Exports, s
+		return one(true, s)
 	case "scan":
-		var ex []export
+		var choice []int // flows whose fate (kept / removed) the scan may have decided either way
 		for fi := range s.F {
 			f := &s.F[fi]
-			if !f.Held || min2(f.Active, f.Inactive) > s.Now {
-				continue
-			}
-			if !ready(fi, *f) {
-				f.Retries++
-				if f.Retries > maxRetries {
-					*f = fstate{}
-				} else {
-					f.Active, f.Inactive = s.Now+A, s.Now+I
+			if o.Ex[fi].Has {
+				if o.Ex[fi].N > 1 || !f.Held || !ready(fi, *f) || o.Ex[fi].Sum != f.Sum || f.LastExp == s.Now {
+					return nil
 				}
-				continue
-			}
-			ex = append(ex, export{fi, f.Sum})
-			f.Sum = [2]uint64{}
-			if f.Inactive <= s.Now {
-				*f = fstate{}
-			} else {
-				f.Active = s.Now + A
+				f.Sum = [2]uint64{}
+				f.LastExp = s.Now
+				choice = append(choice, fi) // active expiry keeps it, inactive expiry removes it
+			} else if f.Held && !ready(fi, *f) {
+				choice = append(choice, fi) // retried, or dropped after the last retry
 			}
 		}
-		return renderExports(ex) == o.Exports, s
+		var res []interface{}
+		for mask := 0; mask < 1<<len(choice); mask++ {
+			n := s
+			for b, fi := range choice {
+				if mask&(1<<b) != 0 {
+					n.F[fi] = fstate{LastExp: n.F[fi].LastExp}
+				}
+			}
+			res = append(res, n)
+		}
+		return res
 	}
-	return false, s
+	return nil
 }
 
 func renderExports(ex []export) string {
@@ -173,13 +192,29 @@ func renderExports(ex []export) string {
 	return fmt.Sprint(ex)
 }
 
-var model = porcupine.Model{
-	Init: func() interface{} { return state{} },
+func mkOutput(ex []export) output {
+	o := output{Exports: renderExports(ex)}
+	for _, e := range ex {
+		if e.Flow >= 0 && e.Flow < NF {
+			o.Ex[e.Flow].Has = true
+			o.Ex[e.Flow].N++
+			o.Ex[e.Flow].Sum = e.Sum
+		} else {
+			o.Ex[0].N += 2 // an export for a flow the history never ingested can be matched by no model state
+			o.Ex[0].Has = true
+		}
+	}
+	return o
+}
+
+var ndModel = porcupine.NondeterministicModel{
+	Init: func() []interface{} { return []interface{}{initState()} },
 	Step: step,
 	DescribeOperation: func(in, out interface{}) string {
 		return fmt.Sprintf("%+v -> %+v", in, out)
 	},
 }
+var model = ndModel.ToModel()
 
 // ---- helpers on the real process ----
 
@@ -242,7 +277,7 @@ func scanExport(ap *intermediate.AggregationProcess) output {
 		ex = append(ex, export{flowIndex(fk), sums(m)})
 		return ap.ResetStatAndThroughputElementsInRecord(rec.Record)
 	})
-	return output{Exports: renderExports(ex)}
+	return mkOutput(ex)
 }
 
 func walkAndReset(ap *intermediate.AggregationProcess) output {
@@ -251,7 +286,7 @@ func walkAndReset(ap *intermediate.AggregationProcess) output {
 		ex = append(ex, export{flowIndex(fk), sums(rec.Record.GetElementMap())})
 		return ap.ResetStatAndThroughputElementsInRecord(rec.Record)
 	})
-	return output{Exports: renderExports(ex)}
+	return mkOutput(ex)
 }
 
 func linHistory(c *hx.Ctx, k int, r *rand.Rand) {
